@@ -22,14 +22,14 @@ def cueOf (utcStart utcEnd cueDur v : Nat) : Option Cue :=
   if en ≤ st then none else some ⟨st, en, v⟩          -- (`fix:` commit) cue that ended before the segment
 
 /-- `calcCueItvls` on the UTC axis.  The loop variable starts at `utcStart / cueFullMS`, runs while
-`≤ (utcStart+segDur) / cueFullMS` and steps by `cueFullS` — exactly as written in the Go code (units are mixed
-when `cueFullS > 1`, see C12 known finding). -/
+`≤ (utcStart+segDur) / cueFullMS` (both converted to seconds) and steps by `cueFullS`: for cue durations above one
+second there is one cue every `cueFullS` seconds only (see C12 known finding). -/
 def calcCueItvls (utcStart segDur cueDur : Nat) : Option (List Cue) :=
   let cueFullS := (cueDur + 999) / 1000               -- ceil(cueDur·0.001)
   if cueFullS = 0 then none else
   let cueFullMS := cueFullS * 1000
-  let first := utcStart / cueFullMS
-  let last := (utcStart + segDur) / cueFullMS
+  let first := utcStart / cueFullMS * cueFullS          -- (`fix:` commit) multiples of the unit, in seconds
+  let last := (utcStart + segDur) / cueFullMS * cueFullS
   let count := if last < first then 0 else (last - first) / cueFullS + 1
   some ((List.range' first count cueFullS).filterMap (cueOf utcStart (utcStart + segDur) cueDur))
 
